@@ -637,6 +637,13 @@ func c03Trace(ctx *vh.Ctx, c *c03Case, obs *c03Obs, events []compose.VerifC03Eve
 			fmt.Sprintf("event %d (%s) of the real taskManager trace is not a transition of the model: %s", ans.At, kind, ans.Why), json.RawMessage(raw))
 		return nil
 	}
+	// malformed stream: the conformance checker itself must reject corrupted traces (guards
+	// against a replay that explains everything)
+	if c03TraceN++; c03TraceN%4 == 0 && len(evs) >= 4 {
+		if err := c03Corrupt(ctx, c, evs, needAll, dis); err != nil {
+			return err
+		}
+	}
 	// what the protocol trace says was never handed back, against the post-handler view
 	got := map[int]int{}
 	for _, id := range ans.Final.Got {
@@ -705,6 +712,73 @@ func c03Trace(ctx *vh.Ctx, c *c03Case, obs *c03Obs, events []compose.VerifC03Eve
 	if ans.Final.Num != len(lost) {
 		obs.Trace = evs
 		dis("C03:trace-num:"+c.Mode, fmt.Sprintf("num=%d at return but %d submitted executions were not received", ans.Final.Num, len(lost)), json.RawMessage(raw))
+	}
+	return nil
+}
+
+var c03TraceN int
+
+// c03Corrupt derives invalid traces from a real one (a completion dropped, a completion
+// received twice, a counter off by one) and requires the model replay to reject each.
+func c03Corrupt(ctx *vh.Ctx, c *c03Case, evs []compose.VerifC03Event, needAll bool, dis func(sig, what string, model any)) error {
+	r := vh.NewRand(c.YieldSeed ^ uint64(len(evs))*7919 ^ uint64(c03TraceN))
+	var finishes, recvs, refills []int
+	for i, e := range evs {
+		switch e.K {
+		case "finish":
+			// a straggler's finish after the last receive is not needed by any later event
+			for _, e2 := range evs[i+1:] {
+				if e2.K == "recv" && e2.T == e.T {
+					finishes = append(finishes, i)
+				}
+			}
+		case "recv":
+			recvs = append(recvs, i)
+		case "refill":
+			refills = append(refills, i)
+		}
+	}
+	type variant struct {
+		name string
+		evs  []compose.VerifC03Event
+	}
+	var vs []variant
+	cp := func() []compose.VerifC03Event { return append([]compose.VerifC03Event{}, evs...) }
+	if len(finishes) > 0 {
+		i := finishes[r.Intn(len(finishes))]
+		x := cp()
+		vs = append(vs, variant{"finish-dropped", append(x[:i], x[i+1:]...)})
+	}
+	if len(recvs) > 0 {
+		i := recvs[r.Intn(len(recvs))]
+		x := cp()
+		y := append([]compose.VerifC03Event{}, x[:i+1]...)
+		y = append(y, x[i])
+		vs = append(vs, variant{"recv-duplicated", append(y, x[i+1:]...)})
+	}
+	if len(refills) > 0 {
+		i := refills[r.Intn(len(refills))]
+		x := cp()
+		x[i].L++
+		vs = append(vs, variant{"refill-counter-off", x})
+	}
+	for _, v := range vs {
+		raw, err := ctx.Oracle.Ask("C03", map[string]any{"kind": "tmtrace", "needAll": needAll, "events": v.evs})
+		if err != nil {
+			return err
+		}
+		var ans struct {
+			OK bool `json:"ok"`
+		}
+		if err := json.Unmarshal(raw, &ans); err != nil {
+			return err
+		}
+		ctx.Res.Dist("malformed-trace:" + v.name)
+		if ans.OK {
+			dis("C03:trace-checker-accepts:"+v.name, "the model replay accepted a corrupted trace ("+v.name+"): the conformance check is too permissive", map[string]any{"events": v.evs})
+		} else {
+			ctx.Res.Dist("malformed-trace:rejected")
+		}
 	}
 	return nil
 }
